@@ -10,7 +10,7 @@ import (
 func init() {
 	commands["C01"] = func(o Opts) { runDBProfile(o, profC01, nil) }
 	commands["C03"] = func(o Opts) { runDBProfile(o, profC03, postC03) }
-	preRecords["C03"] = func(work string) []Record { return append(goldenRecords(work), c03OpenFaults(work)...) }
+	preRecords["C03"] = func(work string) []Record { return append(append(goldenRecords(work), c03OpenFaults(work)...), c03TwoDatabases(work)...) }
 	commands["C06"] = func(o Opts) { runDBProfile(o, profC06, nil) }
 	preRecords["C06"] = func(work string) []Record {
 		var out []Record
